@@ -150,6 +150,17 @@ def _expand_combinators(o, fn, pv):
         for conds, v in cases:
             o2 = _classify(v, o["bb"], o["idx"], fn, pv)
             o2["conds"] = list(o2["conds"]) + list(conds)
+            inn = o2.get("inner")
+            if o2["kind"] == "err" and inn and inn[0] == "field" and inn[2] == "0" and inn[1][0] == "variant" and inn[1][2] == "Err" \
+                    and inn[1][1][0] == "call":
+                # `r.map(f)` hands the Err of r on as it is: the same exit as `r?` (without the identity From conversion)
+                o2.update({"kind": "propagate", "inner": inn[1][1], "verbatim": True})
+            elif o2["kind"] == "err" and inn and inn[0] == "call" and len(inn[2]) == 1 and (
+                    inn[1] == "core::convert::From::from" or (inn[1].startswith("<common::CoseError as core::convert::From<") and inn[1].endswith(">::from"))):
+                a = inn[2][0]
+                if a[0] == "field" and a[2] == "0" and a[1][0] == "variant" and a[1][2] == "Err" and a[1][1][0] == "call":
+                    # `r.map_err(CoseError::from)`: the conversion `r?` applies, spelled out
+                    o2.update({"kind": "propagate", "inner": a[1][1], "converted": True})
             res.append(o2)
         return res
     if o["kind"] == "propagate" and cb.is_combinator(o["inner"]):
